@@ -105,6 +105,13 @@ def grid_classes(h: list) -> set:
         out.add("repeated-values")
     if len({s["d"] for s in op["steps"]}) > 1:
         out.add("unequal-durations")
+    kins = [s["p"]["kin"] for s in op["steps"]]
+    if 0 in kins:
+        out.add("zero-valued-step")
+    if any(a != 0 and b == 0 and c != 0 for a, b, c in zip(kins, kins[1:], kins[2:])):
+        out.add("off-phase-between-non-zero-steps")
+    if j >= 2 and h[j - 1]["op"] == op and op["rel"] and h[j - 2]["st"]["segs"]:
+        out.add("same-relative-grid-used-twice-on-continued-simulator")
     if pre and any(r["k"] == "ov" for r in pre["hist"]):
         out.add("after-override")
     return out
@@ -167,7 +174,8 @@ def run(ctx: Ctx) -> int:
     need = ["before-start", "on-start", "on-boundary", "between", "beyond-end", "relative", "absolute", "refused",
             "accepted", "continued", "fresh", "steps=1", "steps=2", "steps=3", "repeated-values", "unequal-durations",
             "after-override", "proto/n=1", "proto/n=2", "just-after-start", "just-after-boundary",
-            "views-read-before-protocol"]
+            "views-read-before-protocol", "zero-valued-step", "off-phase-between-non-zero-steps",
+            "same-relative-grid-used-twice-on-continued-simulator"]
     missing = [c for c in need if classes[c] == 0]
     if missing:
         raise MachineryError(f"vacuity: the scenario family never has {missing}")
@@ -191,7 +199,7 @@ def run(ctx: Ctx) -> int:
             nvals += stats.get("n", 0)
     rep.notes["values_compared_with_closed_form"] = nvals
     rep.notes["worst_error_over_tolerance"] = round(worst, 4)
-    rep.notes["fragile_rows_judged_at_integrator_atol(|x|<1e-2)"] = sum(st.get("fragile", 0) for _, st in outs)
+    rep.notes["fragile_rows_judged_at_integrator_atol(|x|<1e-1)"] = sum(st.get("fragile", 0) for _, st in outs)
     for h in hs[:: max(1, len(hs) // 3)][:3]:
         rep.sample({"calls": [s["op"] for s in h], "refused": [s["raised"] for s in h],
                     "predicted_index_ticks": [[q["o"] if q["b"] == 0 else f"tau{q['b']}+{q['o']}" for q in g["times"]]
